@@ -180,6 +180,8 @@ def check(model: Model, run: Run) -> None:
         seen.add(ident)
         fi2 = model.functions.get(func)
         run.fail(Finding(rule, cls, key, msg, f"{model.relpath(fi2.module)}:{line}" if fi2 else ""))
+    from ..tlvcheck import nonconstant_tags
+    nonconstant_tags(ex, run, "W15-writer-tags-are-constants")
     finish_with_errors(ex, run)
 
 
